@@ -165,7 +165,7 @@ def xy_spec(draw, families=None, costs=("chi2",), n_sources=(0, 4), x_errors=Tru
     return {"type": "xy", "family": fam, "order": list(order), "x": [float(v) for v in x], "y": [float(v) for v in y], "truth": tb, "cost": cost,
             "sources": sources, "constraints": cons, "start": start, "fixed": fx, "limits": lim,
             "minimizer": draw(st.sampled_from(list(minimizers))), "dea": draw(st.sampled_from(list(deas))), "sigma": base_sigma * (y_scale or 1.0),
-            "y_scale": y_scale}
+            "y_scale": y_scale, "build_order": draw(st.sampled_from(["sources_first", "sources_first", "sources_first", "params_first"]))}
 
 
 @st.composite
@@ -231,6 +231,7 @@ def indexed_spec(draw, costs=("chi2",), n_sources=(0, 4), model_sources=True, co
             fx[nm] = tb[nm] if draw(st.integers(0, 5)) else 0.0
     start = {nm: tb[nm] * (1 + 0.1 * draw(st.floats(-1, 1))) for nm in names}
     return {"type": "indexed", "n": n, "n_par": n_par, "nonlinear": nl, "data": [float(v) for v in d], "truth": tb, "cost": draw(st.sampled_from(list(costs))),
+            "build_order": draw(st.sampled_from(["sources_first", "sources_first", "sources_first", "params_first"])),
             "sources": sources, "constraints": cons, "start": start, "fixed": fx, "limits": {}, "minimizer": draw(st.sampled_from(list(minimizers))),
             "dea": "nonlinear", "sigma": base_sigma}
 
